@@ -29,13 +29,17 @@ impl OperationControl for Sequence {
     fn get_match_length(&self) -> Option<usize> {
         self.operations
             .iter()
-            .try_fold(0, |acc, op| op.get_match_length().map(|len| acc + len))
+            .try_fold(0usize, |acc, op| {
+                op.get_match_length().and_then(|len| acc.checked_add(len))
+            })
     }
 
     fn get_minimum_match_length(&self) -> usize {
         self.operations
             .iter()
-            .fold(0, |acc, op| acc + op.get_minimum_match_length())
+            .fold(0usize, |acc, op| {
+                acc.saturating_add(op.get_minimum_match_length())
+            })
     }
 
     fn get_initial_character_class(&self, case_blind: bool) -> CharacterClass {
